@@ -70,6 +70,7 @@ type ReqSpec struct {
 	SepEnd       bool   `json:"sep_end,omitempty"`    // END_STREAM on a separate empty DATA frame
 	RespEarly    bool   `json:"resp_early,omitempty"` // respond before the upload finished
 	NoCL         bool   `json:"no_cl,omitempty"`
+	Status       int    `json:"status,omitempty"`   // response status (0 = 200); >= 300 with RespEarly makes the client give the upload up
 	CLShort      int    `json:"cl_short,omitempty"` // declared Content-Length is that much smaller than the body sent
 	App          string `json:"app"`
 	AppArg       int    `json:"app_arg,omitempty"`    // prefix / cancel point / chunk size
@@ -165,6 +166,9 @@ func (sc *Scenario) Desc() string {
 		}
 		if r.CLShort > 0 {
 			fmt.Fprintf(&b, " clshort=%d", r.CLShort)
+		}
+		if r.Status != 0 {
+			fmt.Fprintf(&b, " status=%d", r.Status)
 		}
 		fmt.Fprintf(&b, " app=%s/%d", r.App, r.AppArg)
 		if r.RstUpload > 0 {
@@ -317,6 +321,9 @@ func randomScenario(idx int, seed uint64, rng *hk.Rand) *Scenario {
 			r.SepEnd = rng.Chance(25)
 		}
 		r.RespEarly = r.Upload > 0 && rng.Chance(25)
+		if r.RespEarly && rng.Chance(50) {
+			r.Status = hk.Pick(rng, []int{403, 413, 301}) // final response mid-upload: the client gives the body up
+		}
 		r.NoCL = rng.Chance(30)
 		r.App = hk.Pick(rng, []string{appReadAll, appReadAll, appReadAll, appReadSlow, appPrefixClose, appCloseNow, appCancel})
 		switch r.App {
@@ -584,6 +591,28 @@ func specialScenarios(start int, seed uint64, thorough bool) []*Scenario {
 				{Upload: 150000, UnknownLen: true, RespSize: 1, RespChunk: 16384, App: appReadAll, StartDelayUs: 40000},
 			}
 			sc.Actions = []Action{{TrigUp: trig, TrigTicks: 400, Kind: "settings", Settings: [][2]uint32{{5, 16384}}}}
+			add(sc)
+		}
+	}
+	// S10: a final response (status >= 300, END_STREAM) arrives in the middle of an upload and the
+	// peer does not reset the stream: the client gives the body up and has to close its half
+	// (RST_STREAM or END_STREAM) before the slot is used for the next stream - limit 1 / 2, strict.
+	for _, lim := range []uint32{1, 2} {
+		for _, unknown := range []bool{false, true} {
+			sc := defaultScenario(0, seed, fmt.Sprintf("S10-early-final-response-limit-%d-unknownlen=%v", lim, unknown))
+			sc.Strict = true
+			sc.PeerSettings = [][2]uint32{{3, lim}, {4, 20000}}
+			sc.InitConnWU = 1 << 20
+			sc.GrantOnTick = true
+			sc.TickUs = 2000
+			sc.Incs = []uint32{4097, 7000}
+			sc.LowStream, sc.LowConn = 1, 1
+			sc.Reqs = []ReqSpec{
+				{Upload: 300000, UnknownLen: unknown, RespSize: 10, RespChunk: 16384, RespEarly: true, Status: 403, App: appReadAll},
+				{Upload: -1, RespSize: 1000, RespChunk: 16384, App: appReadAll, StartDelayUs: 30000},
+				{Upload: 50000, RespSize: 0, RespChunk: 16384, EndOnHeaders: true, RespEarly: true, Status: 413, App: appReadAll, StartDelayUs: 45000},
+				{Upload: -1, RespSize: 10, RespChunk: 16384, App: appReadAll, StartDelayUs: 60000},
+			}
 			add(sc)
 		}
 	}
